@@ -6,6 +6,8 @@ exception-class oracle for the incomplete-data and missing-data clauses + a
 recording contract on ThermochemGroupAdditive.__init__.
 """
 import collections
+
+import numpy as np
 import math
 import os
 
@@ -158,6 +160,21 @@ def check_case(ctx, case):
     lib = get_lib(case['lib'], case.get('fresh', False))
     pairs = [(k, c) for k, c in case['mapping']]
     mapping = make_mapping(lib, pairs, case.get('keyform', 'str'))
+    ctype = case.get('counttype', 'py')
+    if ctype != 'py':
+        # the same counts as numpy scalars / exact fractions / a Counter
+        import fractions
+        conv = {'numpy': lambda c: (np.int64(c) if isinstance(c, int)
+                                    else np.float64(c)),
+                'numpy32': lambda c: (np.int32(c) if isinstance(c, int)
+                                      else np.float64(c)),
+                'fraction': lambda c: fractions.Fraction(c)
+                if isinstance(c, int) or float(c) == round(float(c), 3)
+                and abs(c) < 1e6 else c,
+                'float': float}[ctype]
+        for k_ in list(mapping):
+            mapping[k_] = conv(mapping[k_])
+        ctx.klass('count type ' + ctype)
     lacking = [k for k, _ in pairs
                if not ('thermochem' in lib[k])]
     o = observe(lib.Estimate, mapping, 'thermochem')
@@ -353,7 +370,9 @@ def gen_cases(ctx):
                         COUNTS)])
             form = r.choice(['str', 'str', 'obj', 'defaultdict'])
             yield {'lib': spec, 'mapping': pairs, 'keyform': form,
-                   'kind': kind, 'fresh': r.random() < 0.05}
+                   'kind': kind, 'fresh': r.random() < 0.05,
+                   'counttype': r.choice(['py'] * 6 + ['numpy', 'numpy32',
+                                                       'fraction', 'float'])}
 
 
 def run_shard(ctx):
